@@ -130,17 +130,39 @@ func allTypeVariants() []typeVariant {
 
 func enumerate(tier string) []caseSpec {
 	var cases []caseSpec
-	seen := map[string]bool{}
+	seen := map[string]int{}
 	add := func(c caseSpec) {
 		k := c.key()
-		if seen[k] {
+		if i, dup := seen[k]; dup {
+			if c.xcross && !cases[i].xcross {
+				// the same request was enumerated earlier outside a crossed group: it is
+				// the member of this group for that option set
+				cases[i].xcross, cases[i].xbase, cases[i].xmask = true, c.xbase, c.xmask
+			}
 			return
 		}
-		seen[k] = true
+		seen[k] = len(cases)
 		cases = append(cases, c)
 	}
 	gen := func(svcs [][]string, naming, pkg string, tv typeVariant, o optSet) caseSpec {
 		return caseSpec{Kind: "gen", Services: svcs, Naming: naming, Pkg: pkg, Req: tv.Req, Resp: tv.Resp, Dep: tv.Dep, OptKey: o.Key, Param: o.Param}
+	}
+	// cross: one descriptor shape under every subset of the plugin's options (2^7 valid option
+	// sets, smallest first, + the 32 strings with paths=source_relative and module, which the
+	// plugin must answer without crashing)
+	cross := func(svcs [][]string, naming, pkg string, tv typeVariant, mWhich string, depSvc []string, order string) {
+		for _, co := range crossedOptSets(pkg, tv.Dep, mWhich) {
+			c := gen(svcs, naming, pkg, tv, co.optSet)
+			c.DepSvc, c.Order = depSvc, order
+			if co.Invalid {
+				c.Kind = "invalid-opt"
+			} else {
+				base := c
+				base.OptKey, base.Param = "", ""
+				c.xcross, c.xbase, c.xmask = true, base.key()+"|M="+mWhich, co.Mask
+			}
+			add(c)
+		}
 	}
 	s3, s2, s1 := seqsUpTo(3), seqsUpTo(2), seqsUpTo(1)
 	namings := []string{"camel", "snake"}
@@ -203,6 +225,16 @@ func enumerate(tier string) []caseSpec {
 					}
 				}
 			}
+		}
+	}
+	// the option set as a fully crossed dimension: every kind sequence <= 2 as a single service,
+	// and every ordered pair of sequences <= 1 as a two-service file with imported types
+	for _, s := range s2 {
+		cross([][]string{s}, "camel", "p", mainTypes[0], "main", nil, "")
+	}
+	for _, a := range s1 {
+		for _, b := range s1 {
+			cross([][]string{a, b}, "snake", "a.b.c", mainTypes[1], "both", nil, "")
 		}
 	}
 	if tier != "thorough" {
@@ -285,6 +317,33 @@ func enumerate(tier string) []caseSpec {
 							}
 						}
 					}
+				}
+			}
+		}
+	}
+	// X: the option set fully crossed with longer sequences, the other namings/packages/type
+	// sources, two-service files and two-file requests
+	xcfg := []struct{ nm, pkg string }{{"camel", "p"}, {"snake", "a.b.c"}, {"camel", ""}}
+	for _, cf := range xcfg {
+		for _, s := range s3 {
+			cross([][]string{s}, cf.nm, cf.pkg, mainTypes[0], "main", nil, "")
+		}
+		for _, s := range s2 {
+			cross([][]string{s}, cf.nm, cf.pkg, mainTypes[1], "both", nil, "")
+			cross([][]string{s}, cf.nm, cf.pkg, mainTypes[2], "main", nil, "")
+		}
+	}
+	for _, a := range s2 {
+		for _, b := range s1 {
+			cross([][]string{a, b}, "camel", "p", mainTypes[0], "main", nil, "")
+			cross([][]string{b, a}, "camel", "p", mainTypes[0], "main", nil, "")
+		}
+	}
+	for _, tv := range []typeVariant{{"I", "I", "other"}, {"L", "L", "same"}} {
+		for _, order := range []string{"", "dependent-first"} {
+			for _, a := range s1 {
+				for _, b := range [][]string{{kU}, {kBD}} {
+					cross([][]string{a}, "camel", "p", tv, "both", b, order)
 				}
 			}
 		}
@@ -472,6 +531,20 @@ func main() {
 		return
 	}
 
+	if err := selfTest(); err != nil {
+		fail("%v", err)
+		return
+	}
+	pluginOpts, err := pluginOptionNames()
+	if err != nil {
+		fail("%v", err)
+		return
+	}
+	optMissing, optExtra := optionAlphabetDiff(pluginOpts)
+	if len(optMissing) > 0 {
+		fmt.Fprintf(os.Stderr, "note: parseArgs of the plugin understands options the grammar does not enumerate: %v\n", optMissing)
+	}
+
 	if p := common.Arg("replay"); p != "" {
 		var c caseSpec
 		if err := common.LoadReplay(p, &c); err != nil {
@@ -519,6 +592,9 @@ func main() {
 	var samples []interface{}
 	totals := caseStats{}
 	internal := 0
+	crossSeen := map[string][]int{}
+	crossBases := map[string]bool{}
+	crossCases, subsumed := 0, 0
 
 	// the plugin runs in parallel; the oracle consumes the outcomes in enumeration order
 	const chunk = 1024
@@ -555,17 +631,39 @@ func main() {
 			totals.Methods += st.Methods
 			totals.StreamIndexes += st.StreamIndexes
 			totals.TypeChecked += st.TypeChecked
+			totals.DescRefs += st.DescRefs
 			if st.Registrations > 0 || st.Methods > 0 || (o.c.Kind == "invalid-opt" && st.Observed != "") {
 				distinct[o.c.key()] = true
 			}
 			if n := lo + i; n%(len(cases)/6+1) == 7 && len(samples) < 8 {
 				samples = append(samples, map[string]interface{}{"case": o.c, "observed": st.Observed})
 			}
+			if o.c.xcross {
+				crossCases++
+				crossBases[o.c.xbase] = true
+			}
 			for _, f := range fs {
 				if f.Clause == "internal" {
 					internal++
 					fmt.Fprintf(os.Stderr, "internal error on %s: %s: %s\n", o.c.key(), f.Detail, f.What)
 					continue
+				}
+				if o.c.xcross {
+					// within a fully crossed option group a finding is reported under the minimal
+					// option sets that show it: it is dropped when the same clause and detail (option
+					// set aside) was already observed for the same request under a proper subset
+					core := o.c.xbase + "||" + f.Clause + "|" + strings.ReplaceAll(f.Detail, "opt="+o.c.OptKey, "opt=*")
+					sub := false
+					for _, m := range crossSeen[core] {
+						if m != o.c.xmask && m&o.c.xmask == m {
+							sub = true
+						}
+					}
+					crossSeen[core] = append(crossSeen[core], o.c.xmask)
+					if sub {
+						subsumed++
+						continue
+					}
 				}
 				rep.Violation("C19|"+f.Clause+"|"+f.Detail, f.What+"  [case "+o.c.key()+"]", o.c)
 			}
@@ -589,20 +687,34 @@ func main() {
 		fail("%d internal errors of the checker", internal)
 		return
 	}
-	exhaustive := true
+	// the grammar is the stated one only if its option alphabet is the plugin's
+	exhaustive := len(optMissing) == 0
 	code = rep.Finish("exploration", map[string]interface{}{
 		"evaluations":         evals,
 		"distinct_nontrivial": len(distinct),
 		"rule": "a case (= one CodeGeneratorRequest: services x method-kind sequences x naming x proto package x request/response type source x dep placement x option string) is non-trivial when the plugin emitted a file in which at least one RegisterHandler function or legacy client method was located and compared with the model (or, for an invalid option string, when the plugin answered at all); distinct by the full case key. " +
-			"quick: every kind sequence of length 0..3 as a single service x {camel,snake} x {p,a.b.c,no package} x {local, imported, Empty} with legacy_stubs (+ no options for local), two-service files for every ordered pair of sequences <= 2 and every (<=3, <=1)/(<=1, <=3) pair, requests generating two files (dependency in another/the same Go package) x both orders of file_to_generate x 9 package/output-name options (import_path, module, paths, M...) with an order-invariance comparison of output names, package clauses and import sets, + regeneration. " +
-			"thorough adds: 18 valid option strings x all <=3 sequences x 3 packages; all 37 request/response type-source/dep-placement variants x all option strings; every ordered pair of <=3 sequences in a two-service file; three-service files; every unary/streaming mask of length 5 and 6; requests generating two files; 18 invalid option strings.",
-		"registrations_compared":    totals.Registrations,
-		"client_methods_compared":   totals.Methods,
-		"stream_indexes_compared":   totals.StreamIndexes,
-		"emitted_files_typechecked": totals.TypeChecked,
-		"samples":                   samples,
-		"exhaustive":                exhaustive,
+			"The option set is a fully crossed dimension: all 2^7 = 128 subsets of the options parseArgs understands {legacy_stubs, legacy_desc_names, paths, module, import_path, M..., debug} (one representative value per valued option; paths=source_relative, or paths=import when module is in the set, the rejected pair paths=source_relative+module being enumerated as 32 invalid strings), each with a companion (the protoc-gen-go/-go-grpc declarations the output is type-checked against) synthesised for that option set, i.e. declaring _<Svc>_serviceDesc exactly when legacy_desc_names is on. In a crossed group a finding is reported under the minimal option sets that show it (dropped when the same clause/detail was observed for the same descriptor under a proper subset; count in subsumed_findings). " +
+			"quick: the 128+32 option strings x (every kind sequence of length 0..2 as a single service, camel, package p, local types, M mapping the file) and x (every ordered pair of sequences <= 1 as a two-service file, snake, package a.b.c, imported types, M mapping both files); " +
+			"every kind sequence of length 0..3 as a single service x {camel,snake} x {p,a.b.c,no package} x {local, imported, Empty} with legacy_stubs (+ no options for local), two-service files for every ordered pair of sequences <= 2 and every (<=3, <=1)/(<=1, <=3) pair, requests generating two files (dependency in another/the same Go package) x both orders of file_to_generate x 9 package/output-name options (import_path, module, paths, M...) with an order-invariance comparison of output names, package clauses and import sets, + regeneration. " +
+			"thorough adds: 18 valid option strings x all <=3 sequences x 3 packages; all 37 request/response type-source/dep-placement variants x all option strings; every ordered pair of <=3 sequences in a two-service file; three-service files; every unary/streaming mask of length 5 and 6; requests generating two files; 18 invalid option strings; " +
+			"the 128+32 crossed option strings x (every sequence <= 3 x {camel/p, snake/a.b.c, camel/no package} with local types; every sequence <= 2 x the same three x {imported, Empty} types; two-service files for every (<=2, <=1)/(<=1, <=2) pair; two-file requests x both orders of file_to_generate x {dependency in another, the same Go package} x sequences <= 1 x dependency service {U, BD}).",
+		"option_alphabet":                   optAtoms,
+		"plugin_options_found_in_source":    pluginOpts,
+		"plugin_options_not_enumerated":     optMissing,
+		"grammar_options_unknown_to_plugin": optExtra,
+		"option_subsets":                    1 << nOptAtoms,
+		"crossed_descriptor_shapes":         len(crossBases),
+		"crossed_cases":                     crossCases,
+		"subsumed_findings":                 subsumed,
+		"descriptor_references_compared":    totals.DescRefs,
+		"registrations_compared":            totals.Registrations,
+		"client_methods_compared":           totals.Methods,
+		"stream_indexes_compared":           totals.StreamIndexes,
+		"emitted_files_typechecked":         totals.TypeChecked,
+		"samples":                           samples,
+		"exhaustive":                        exhaustive,
 	}, []string{
+		"valued options are enumerated with one representative value each inside the crossed dimension (other values and M placements: the 18 named option strings); the textual order of the options in the parameter string is the canonical one",
 		"protoc itself is not run: requests are built with descriptorpb and validated by the plugin's own descriptor loader",
 		"the companion file models protoc-gen-go-grpc v1.1 (non-generic stream wrappers), the version the repository's Makefile pins",
 		"type-checking uses go/types with export data of the dependency versions in the repository's go.mod",
